@@ -39,6 +39,35 @@ def _sum_arg(t):
     return t[2][0] if t[1][0] == "global" else t[1][1]
 
 
+_PER_CONTEST = ("divided_error_B_1", "divided_error_B_2", "aggregate_pred_margin", "called_contests", "stop_model_call")
+
+
+def _see_through_selection(term, _memo=None):
+    """The table below is evaluated PER CONTEST, so a row selection of a per-contest vector by a stored mask
+    (`self.called_contests[self.<mask>]`, e.g. to leave out groups that are not contests of the election) does not change it, nor
+    does `None if self.x is None else <selection of self.x>`: both are replaced by the vector itself."""
+    if _memo is None:
+        _memo = {}
+    if not isinstance(term, tuple) or not term or not isinstance(term[0], str):
+        return term
+    if term in _memo:
+        return _memo[term]
+    t = ir.map_children(term, lambda x: _see_through_selection(x, _memo))
+    SELF_ = ("param", "self")
+
+    def vec(x):
+        return x[0] == "attr" and x[1] == SELF_ and x[2] in _PER_CONTEST
+
+    if t[0] == "sub" and vec(t[1]) and t[2][0] == "attr" and t[2][1] == SELF_:
+        t = t[1]
+    elif t[0] in ("ifexp", "phi") and t[1][0] == "cmp" and t[1][1] in ("is", "isnot", "is not") and vec(t[1][2]) and t[1][3] == ("const", None):
+        none_branch, other = (t[2], t[3]) if t[1][1] == "is" else (t[3], t[2])
+        if none_branch == ("const", None) and other == t[1][2]:
+            t = other
+    _memo[term] = t
+    return t
+
+
 def check(ctx):
     repo = ctx.repo
     ctx.explanation = (
@@ -115,7 +144,7 @@ def check(ctx):
     ret = s.ret()
     ctx.require(ret[0] == "dict" and len(ret[1]) == 1 and ret[1][0][0] == ("const", "margin") and ret[1][0][1][0] == "list"
                 and len(ret[1][0][1][1]) == 3, f"{f.where()}: result is not {{'margin': [pred, lower, upper]}}")
-    outs = ret[1][0][1][1]
+    outs = tuple(_see_through_selection(t) for t in ret[1][0][1][1])
 
     def unround(t):
         if t[0] == "call" and t[1] == ("global", "round") and len(t[2]) == 2 and t[2][1] == ("const", 2) and t[2][0][0] == "bin" \
